@@ -1,6 +1,6 @@
 (* C06 - output records are atomic and carry the label of the host that produced them.
    Statements only; proofs in Dsh/OutputFacts.v and Base/ShuffleFacts.v. *)
-(* before_eof, script_ok, stream_of, in_domain: Dsh/OutputDomain.v *)
+(* before_eof, script_ok, stream_of, in_domain, in_domain_wide: Dsh/OutputDomain.v *)
 From PV Require Import Cbuf.CbufDefs Cbuf.CbufFd Dsh.Output Dsh.OutputSpec Dsh.OutputDomain Dsh.OutputFacts Base.Shuffle.
 Local Open Scope N_scope.
 
@@ -13,6 +13,14 @@ Theorem C06_calls_are_records : forall x s, script_ok s -> in_domain x (stream_o
   snd (run_stream x s) = records (emit x) (stream_of s).
 Proof. exact calls_are_records. Qed.
 Print Assumptions C06_calls_are_records.
+
+(* the same for an unterminated rest of up to exactly 128 KiB (in_domain_wide: every complete line
+   with its newline AND the rest are at most CBUF_MAXSIZE bytes): this is the full domain of the
+   property text; one byte more and the oldest byte is lost (notes/C05-C06.md has the witness) *)
+Theorem C06_calls_are_records_wide : forall x s, script_ok s -> in_domain_wide x (stream_of s) ->
+  snd (run_stream x s) = records (emit x) (stream_of s).
+Proof. exact calls_are_records_wide. Qed.
+Print Assumptions C06_calls_are_records_wide.
 
 (* the label is the host's own name, cut at the first dot only when the name does not start
    with a digit and domains are not kept *)
